@@ -593,6 +593,13 @@ Definition enter_prevote_wait (height round : Z) : M :=
     else if negb (o_has_any (prevotes (cs_votes s) round)) then panic 1 s
     else seq (schedule height round SPrevoteWait) (modify (set_rs round SPrevoteWait)) s.
 
+(* the re-lock of enterPrecommit: LockedRound := round; since the repair of F83 also
+   ValidRound/ValidBlock/ValidBlockParts := round / LockedBlock / LockedBlockParts if ValidRound < round *)
+Definition relock_unfixed (round : Z) (x : cstate) : cstate := set_locked round (cs_lblock x) (cs_lparts x) x.
+Definition relock (round : Z) (x : cstate) : cstate :=
+  let x1 := relock_unfixed round x in
+  if cs_vround x1 <? round then set_valid round (cs_lblock x1) (cs_lparts x1) x1 else x1.
+
 (* enterPrecommit *)
 Definition enter_precommit (height round : Z) : M :=
   fun s =>
@@ -612,7 +619,9 @@ Definition enter_precommit (height round : Z) : M :=
               (seq (sign_add_vote PRECOMMIT None) finish) s
         | Some (h, ph) =>
           if hashes_to (cs_lblock s) h then
-            seq (modify (fun x => set_locked round (cs_lblock x) (cs_lparts x) x))
+            (* re-lock; repair of finding F83: the polka of this round is for the locked block, which
+               becomes the valid block as well (when ValidRound < round) *)
+            seq (modify (relock round))
                 (seq (sign_add_vote PRECOMMIT (Some (h, ph))) finish) s
           else if hashes_to (cs_pblock s) h then
             match cs_pblock s with
